@@ -625,7 +625,7 @@ def shard(ctx):
     def oracle(case):
         check(ctx, case)
 
-    ctx.run_hypothesis(cases(), oracle, ctx.scale(1200, 40000))
+    ctx.run_hypothesis(cases(), oracle, ctx.scale(4000, 60000))
 
 
 def replay(ctx, case):
